@@ -9,7 +9,6 @@ import (
 	"strings"
 	"encoding/binary"
 	"fmt"
-	"io"
 	"log"
 	"math/rand"
 	"net"
@@ -381,7 +380,7 @@ func startServer(t *testing.T, cfg srvCfg) (*srvRun, error) {
 	}
 	ctx, cancel := context.WithCancel(context.Background())
 	s.cancel = cancel
-	srv, err := server.New(ctx, log.New(io.Discard, "", 0), s.iface, cfg.proto())
+	srv, err := server.New(ctx, log.New(logSink{}, "", 0), s.iface, cfg.proto())
 	if err != nil {
 		cancel()
 		return nil, err
